@@ -546,6 +546,16 @@ func (g *FuncGen) evFuncValueCall(c *ast.CallExpr, st *State) []Val {
 	for _, a := range c.Args {
 		g.ev(a, st)
 	}
+	if n, ok := types.Unalias(g.typeOf(c.Fun)).(*types.Named); ok && n.Obj().Pkg() != nil {
+		if ps := g.P.Specs[pkgShort(n.Obj().Pkg())]; ps != nil && ps.PureFuncTypes[n.Obj().Name()] {
+			g.notes = append(g.notes, fmt.Sprintf("functype %s pure: every function value of this type is assumed not to modify the repository heap or the file system", n.Obj().Name()))
+			var res []Val
+			for i := 0; i < ft.Results().Len(); i++ {
+				res = append(res, g.freshVal(st, "fv", ft.Results().At(i).Type()))
+			}
+			return res
+		}
+	}
 	ws := newWriteSet()
 	ws.all = true
 	g.havoc(st, ws, "call through function value")
